@@ -1,14 +1,14 @@
 SPECIFICATION Spec
 CONSTANTS
-  Packets <- PacketsRouteQ
-  MaxPackets = 2
-  NR = 2
-  RFns <- RFnsRoute
-  SendSets <- NoSenders
-  MaxSends = 0
-  Mode = "router"
+  Packets <- NoPackets
+  MaxPackets = 0
+  NR = 0
+  RFns <- RFnsTcp
+  SendSets <- Send1Tcp
+  MaxSends = 2
+  Mode = "tcp"
   LateRegister = FALSE
-  Bug = "no_version_check"
+  Bug = "inplace_header"
 INVARIANT TypeOK
 INVARIANT CodecOK
 INVARIANT ReadsOK
